@@ -84,6 +84,16 @@ def curated():
     out.append(A(2, RI(L(1))))
     out.append(G("Option", RI(dict(k="tuple", ts=[L(1), A(3, L(9))]))))
     out.append(dict(k="tuple", ts=[RI(L(6)), L(3), RI(A(2, L(2)))]))
+    # 14-16. rc::Weak / sync::Weak (TreeKey + TreeSerialize + TreeDeserialize, no TreeAny), alive and dead: as the root
+    #         over an internal node, inside an array, behind Option and inside a tuple
+    out.append(G("RcWeak", A(2, L(6))))
+    out.append(A(2, G("ArcWeak", dict(k="tuple", ts=[L(1), L(9)]))))
+    out.append(dict(k="tuple", ts=[G("Option", G("RcWeak", L(3))), L(1), G("ArcWeak", A(2, L(2)))]))
+    # 17-19. reference wrappers: &mut T (all traits), &RefCell / &Mutex / &RwLock (no TreeAny; borrowed / poisoned states),
+    #         plain &T (TreeKey + TreeSerialize only)
+    out.append(dict(k="tuple", ts=[G("RefMut", A(2, L(6))), L(1), G("RefMut", L(9))]))
+    out.append(dict(k="tuple", ts=[G("RefRefCell", A(2, L(3))), G("RefMutex", L(6)), G("RefRwLock", dict(k="tuple", ts=[L(1), L(9)])), G("RefRefCell", L(1))]))
+    out.append(dict(k="tuple", ts=[G("Ref", L(6)), L(2), G("Ref", A(3, L(1)))]))
     # 13. 63 nested one-element arrays (one bit per level): max_bits is exactly the capacity of a Packed word
     t63 = L(1)
     for _ in range(63):
@@ -91,7 +101,7 @@ def curated():
     out.append(t63)
     res = []
     for t in out:
-        res.append((t, [S.value(rng, t) for _ in range(2)]))
+        res.append((t, [S.value(rng, t) for _ in range(3 if S.has_gate(t, tuple(S.WEAK) + S.REF_NOANY) else 2)]))
     return res
 
 
